@@ -150,6 +150,16 @@ def _enum(*tokens, **aliases):
   return parse
 
 
+_ALPHA = re.compile(r"[0-9]+(\.[0-9]+)?|\.[0-9]+")
+
+
+def parse_alpha(v):
+  """tts:opacity: a non-negative decimal number (values above 1 are not generated)"""
+  if not _ALPHA.fullmatch(v):
+    raise ValueError("bad alpha")
+  return float(v)
+
+
 def parse_text_decoration(v):
   """-> (underline, lineThrough, overline), each True / False / None (= not specified, inherits)"""
   if v == "none":
@@ -182,8 +192,10 @@ PROPS = {
   "textAlign": (_enum("left", "center", "right", "start", "end", left="start", right="end"), True, "start"),
   "display": (_enum("auto", "none"), False, "auto"),
   "visibility": (_enum("visible", "hidden"), True, "visible"),
+  # a number whose interesting value is 0 (falsy in most languages: `if value:` is not `if value is not None:`)
+  "opacity": (parse_alpha, False, 1.0),
 }
-SPAN_PROPS = ("color", "backgroundColor", "fontWeight", "fontStyle", "textDecoration", "visibility", "display")
+SPAN_PROPS = ("color", "backgroundColor", "fontWeight", "fontStyle", "textDecoration", "visibility", "display", "opacity")
 P_PROPS = ("textAlign",)
 
 
@@ -564,8 +576,8 @@ class Doc:
         # anonymous span: inherited values from the parent, initial values for the non-inherited properties.  For text directly
         # in a ruby base / text / delimiter the reader under test wraps the text in a span of its own; whether the
         # non-inherited values of the run are those of the wrapper or of the ruby part is a matter of representation only
-        if n.parent.kind != "p" and (any(k in n.parent.spec for k in ("backgroundColor", "display")) or
-                                     any(s.anim and s.anim[0] in ("backgroundColor", "display") for s in n.parent.sets)):
+        if n.parent.kind != "p" and (any(k in n.parent.spec for k in ("backgroundColor", "display", "opacity")) or
+                                     any(s.anim and s.anim[0] in ("backgroundColor", "display", "opacity") for s in n.parent.sets)):
           raise OutOfScope("non-inherited style on a ruby part with direct text")
         comp = self._compute(n, parent_comp, t)
         if comp["display"] == "none":
